@@ -10,12 +10,12 @@ import (
 
 func init() {
 	register(&Property{
-		ID:        "C37",
-		Roots:     []string{"interfaces/prompting/patterns"},
-		Technique: "guarded-sink reachability on PathPattern.parse and parseAlt; loop accumulation-must-be-bounded rule (SSA) on every renderNode.NumVariants implementation; who-may-write of PathPattern.renderTree",
+		ID:          "C37",
+		Roots:       []string{"interfaces/prompting/patterns"},
+		Technique:   "guarded-sink reachability on PathPattern.parse and parseAlt; loop accumulation-must-be-bounded rule (SSA) on every renderNode.NumVariants implementation; who-may-write of PathPattern.renderTree",
 		Explanation: "Structural necessary conditions for 'the number of expansions never exceeds the limit; invalid patterns are rejected' (matching/precedence are not decided): (R1) PathPattern.parse accepts (stores original/renderTree) only across ok(scan), ok(parse) and NumVariants(tree) <= maxExpandedPatterns for the very tree it stores, and parseAlt descends only below the nesting limit; (R2) the number compared with the limit cannot wrap: in every renderNode.NumVariants implementation an integer accumulation of children's NumVariants() results inside a loop is bounded by a comparison on the accumulator, the factor or the result on every path that performs it and then continues; every renderNode implementation is one of the reviewed ones; (R3) NumVariants and RenderAllVariants read the same renderTree, which is written only by parse; (R4) a render node is equal only to a node of its own kind (so alt.optimize never drops an alternative as a duplicate of a differently shaped one), and HighestPrecedencePattern compares every candidate with no early exit.",
-		NotDecided: "that matching a path equals matching one of the expansions; that precedence is order-independent; the doublestar library; exactness of the count below the limit.",
-		Run:        runC37,
+		NotDecided:  "that matching a path equals matching one of the expansions; that precedence is order-independent; the doublestar library; exactness of the count below the limit.",
+		Run:         runC37,
 	})
 }
 
